@@ -20,6 +20,17 @@ type BasicType interface {
 		~float32 | ~float64
 }
 
+// ErrLengthOverflow is returned when a text or list is too long for its length prefix.
+var ErrLengthOverflow = errors.New("length does not fit its length prefix")
+
+// checkLen reports ErrLengthOverflow when n cannot be represented in the prefix type T.
+func checkLen[T constraints.Unsigned](n int) error {
+	if uint64(n) > uint64(^T(0)) {
+		return ErrLengthOverflow
+	}
+	return nil
+}
+
 func WriteBasicType[T BasicType](buf *bytes.Buffer, v T) error {
 	return binary.Write(buf, binary.BigEndian, &v)
 }
@@ -42,6 +53,9 @@ func ReadBasicTypeLE[T BasicType](buf *bytes.Buffer) (T, error) {
 }
 
 func WriteBasicTypeList[T constraints.Unsigned, K BasicType](buf *bytes.Buffer, values []K) error {
+	if err := checkLen[T](len(values)); err != nil {
+		return err
+	}
 	if err := binary.Write(buf, binary.BigEndian, T(len(values))); err != nil {
 		return err
 	}
@@ -54,6 +68,9 @@ func WriteBasicTypeList[T constraints.Unsigned, K BasicType](buf *bytes.Buffer, 
 }
 
 func WriteBasicTypeListLE[T constraints.Unsigned, K BasicType](buf *bytes.Buffer, values []K) error {
+	if err := checkLen[T](len(values)); err != nil {
+		return err
+	}
 	if err := binary.Write(buf, binary.LittleEndian, T(len(values))); err != nil {
 		return err
 	}
@@ -109,6 +126,9 @@ func ReadBasicTypeListLE[T constraints.Unsigned, K BasicType](buf *bytes.Buffer)
 // ----------------------------
 
 func WriteString[T constraints.Unsigned](buf *bytes.Buffer, s string) error {
+	if err := checkLen[T](len(s)); err != nil {
+		return err
+	}
 	if err := binary.Write(buf, binary.BigEndian, T(len(s))); err != nil {
 		return err
 	}
@@ -119,6 +139,9 @@ func WriteString[T constraints.Unsigned](buf *bytes.Buffer, s string) error {
 }
 
 func WriteStringLE[T constraints.Unsigned](buf *bytes.Buffer, s string) error {
+	if err := checkLen[T](len(s)); err != nil {
+		return err
+	}
 	if err := binary.Write(buf, binary.LittleEndian, T(len(s))); err != nil {
 		return err
 	}
@@ -193,6 +216,9 @@ func WriteFixedStringList[T constraints.Unsigned](buf *bytes.Buffer, values []st
 }
 
 func WriteFixedStringListWithPadding[T constraints.Unsigned](buf *bytes.Buffer, values []string, fixedLen int, padChar rune, padLeft bool) error {
+	if err := checkLen[T](len(values)); err != nil {
+		return err
+	}
 	if err := binary.Write(buf, binary.BigEndian, T(len(values))); err != nil {
 		return err
 	}
@@ -211,6 +237,9 @@ func WriteFixedStringListLE[T constraints.Unsigned](buf *bytes.Buffer, values []
 	return WriteFixedStringListWithPaddingLE[T](buf, values, fixedLen, ' ', false)
 }
 func WriteFixedStringListWithPaddingLE[T constraints.Unsigned](buf *bytes.Buffer, values []string, fixedLen int, padChar rune, padLeft bool) error {
+	if err := checkLen[T](len(values)); err != nil {
+		return err
+	}
 	if err := binary.Write(buf, binary.LittleEndian, T(len(values))); err != nil {
 		return err
 	}
@@ -287,12 +316,18 @@ func ReadFixedStringListTrimPaddingLE[T constraints.Unsigned](buf *bytes.Buffer,
 // K: type used for each string's length prefix (e.g., uint8, uint16, uint32)
 func WriteStringListLE[T constraints.Unsigned, K constraints.Unsigned](buf *bytes.Buffer, values []string) error {
 	// Write the list length prefix
+	if err := checkLen[T](len(values)); err != nil {
+		return err
+	}
 	if err := binary.Write(buf, binary.LittleEndian, T(len(values))); err != nil {
 		return err
 	}
 
 	// Write each string with its own length prefix
 	for _, s := range values {
+		if err := checkLen[K](len(s)); err != nil {
+			return err
+		}
 		if err := binary.Write(buf, binary.LittleEndian, K(len(s))); err != nil {
 			return err
 		}
@@ -303,12 +338,18 @@ func WriteStringListLE[T constraints.Unsigned, K constraints.Unsigned](buf *byte
 
 func WriteStringList[T constraints.Unsigned, K constraints.Unsigned](buf *bytes.Buffer, values []string) error {
 	// Write the list length prefix
+	if err := checkLen[T](len(values)); err != nil {
+		return err
+	}
 	if err := binary.Write(buf, binary.BigEndian, T(len(values))); err != nil {
 		return err
 	}
 
 	// Write each string with its own length prefix
 	for _, s := range values {
+		if err := checkLen[K](len(s)); err != nil {
+			return err
+		}
 		if err := binary.Write(buf, binary.BigEndian, K(len(s))); err != nil {
 			return err
 		}
@@ -375,6 +416,9 @@ func ReadStringList[T constraints.Unsigned, K constraints.Unsigned](buf *bytes.B
 // Object
 func WriteObjectList[T constraints.Unsigned, K BinaryCodec](buf *bytes.Buffer, values []K) error {
 	// Write the list length prefix
+	if err := checkLen[T](len(values)); err != nil {
+		return err
+	}
 	if err := binary.Write(buf, binary.BigEndian, T(len(values))); err != nil {
 		return err
 	}
@@ -409,6 +453,9 @@ func ReadObjectList[T constraints.Unsigned, K BinaryCodec](buf *bytes.Buffer, ne
 // Object
 func WriteObjectListLE[T constraints.Unsigned, K BinaryCodec](buf *bytes.Buffer, values []K) error {
 	// Write the list length prefix
+	if err := checkLen[T](len(values)); err != nil {
+		return err
+	}
 	if err := binary.Write(buf, binary.LittleEndian, T(len(values))); err != nil {
 		return err
 	}
